@@ -6,6 +6,7 @@ use dryoc::classic::crypto_box::*;
 use dryoc::classic::crypto_secretbox::*;
 use dryoc::classic::crypto_secretstream_xchacha20poly1305 as ss;
 
+use crate::polymath;
 use crate::so;
 use crate::util::*;
 
@@ -329,7 +330,37 @@ pub const C01: Registry = &[
     ("box_object", c01_box_object),
     ("seal_dryoc_to_sodium", c01_seal_dryoc_to_sodium),
     ("seal_sodium_to_dryoc", c01_seal_sodium_to_dryoc),
+    // same bodies on messages whose *ciphertext* is constructed so that the
+    // Poly1305 accumulator ends on p-2 .. 2^130-1 / leaves a carry pending
+    ("secretbox_easy_poly1305_edge", c01_secretbox_easy),
+    ("secretbox_detached_poly1305_edge", c01_secretbox_detached),
+    ("secretbox_inplace_poly1305_edge", c01_secretbox_inplace),
+    ("secretbox_object_poly1305_edge", c01_secretbox_object),
+    ("box_easy_poly1305_edge", c01_box_easy),
+    ("box_detached_poly1305_edge", c01_box_detached),
+    ("box_afternm_poly1305_edge", c01_box_afternm),
+    ("box_inplace_poly1305_edge", c01_box_inplace),
+    ("box_object_poly1305_edge", c01_box_object),
 ];
+
+/// Plaintexts for (k, n) whose XSalsa20-Poly1305 ciphertext drives the
+/// Poly1305 accumulator to each of the edge values (the one-time key is the
+/// first 32 bytes of the keystream, so the ciphertext can be chosen freely:
+/// message = ciphertext XOR keystream).
+fn poly1305_edge_plaintexts(rng: &mut Rng, k: &[u8; 32], n: &[u8; 24], thorough: bool) -> Vec<Vec<u8>> {
+    let ks = so::stream_xsalsa20(32 + 16 * 8, n, k);
+    let polykey: [u8; 32] = ks[..32].try_into().unwrap();
+    let mut out = Vec::new();
+    for (off, _) in polymath::FINAL_TARGETS {
+        let shapes: &[(usize, usize)] = if thorough { &[(1, 16), (3, 16), (6, 16), (1, 15)] } else { &[(1, 16), (4, 16)] };
+        for (nprefix, last_len) in shapes {
+            if let Some(c) = polymath::message_with_final_accumulator(rng, &polykey, *off, *nprefix, *last_len) {
+                out.push(c.iter().zip(&ks[32..]).map(|(a, b)| a ^ b).collect());
+            }
+        }
+    }
+    out
+}
 
 pub fn c01(ctx: &mut Ctx) -> Search {
     let rounds = if ctx.thorough { 4 } else { 1 };
@@ -349,6 +380,39 @@ pub fn c01(ctx: &mut Ctx) -> Search {
             let sl = Input::new().b("skb", &skb).b("m", &m);
             ctx.run("seal_dryoc_to_sodium", sl.clone())?;
             ctx.run("seal_sodium_to_dryoc", sl)?;
+        }
+    }
+    // constructed ciphertexts: Poly1305 accumulator on its edge values
+    let t = ctx.thorough;
+    for _ in 0..(if t { 8 } else { 2 }) {
+        let (k, n) = (ctx.rng.arr::<32>(), ctx.rng.arr::<24>());
+        for m in poly1305_edge_plaintexts(&mut ctx.rng, &k, &n, t) {
+            let sb = Input::new().b("k", &k).b("n", &n).b("m", &m);
+            for case in [
+                "secretbox_easy_poly1305_edge",
+                "secretbox_detached_poly1305_edge",
+                "secretbox_inplace_poly1305_edge",
+                "secretbox_object_poly1305_edge",
+            ] {
+                ctx.run(case, sb.clone())?;
+            }
+        }
+        let (ska, skb) = (ctx.rng.arr::<32>(), ctx.rng.arr::<32>());
+        let shared = match so::box_beforenm(&so::scalarmult_base(&skb), &ska) {
+            Some(s) => s,
+            None => continue,
+        };
+        for m in poly1305_edge_plaintexts(&mut ctx.rng, &shared, &n, t) {
+            let bx = Input::new().b("ska", &ska).b("skb", &skb).b("n", &n).b("m", &m);
+            for case in [
+                "box_easy_poly1305_edge",
+                "box_detached_poly1305_edge",
+                "box_afternm_poly1305_edge",
+                "box_inplace_poly1305_edge",
+                "box_object_poly1305_edge",
+            ] {
+                ctx.run(case, bx.clone())?;
+            }
         }
     }
     Ok(())
@@ -481,7 +545,65 @@ fn c02_stream_pull(i: &Input) -> Outcome {
     verdict("DryocStream::pull_to_vec", accept, r.is_ok())
 }
 
+/// Three genuine chunks of one stream (made by libsodium from `dseed`); the
+/// chunk `c` with AD `ad` is presented to the pull state just before genuine
+/// chunk number `pos` (0..=2).  Every step's accept / reject decision, message
+/// and tag must equal libsodium's on the same sequence: a rejected chunk must
+/// leave the stream able to accept the genuine one (e.g. a retransmission).
+fn c02_stream_sequence(i: &Input) -> Outcome {
+    use dryoc::dryocstream::{DryocStream, Header, Key};
+    let (k, header) = (i.arr::<32>("k"), i.arr::<24>("header"));
+    let (bad_c, bad_ad, pos) = (i.get("c"), i.get("ad"), i.num("pos") as usize);
+    if pos > 2 {
+        panic!("{} pos must be 0..=2", HARNESS);
+    }
+    let mut data = Rng::new(i.num("dseed"));
+    let mut sp = so::stream_init_pull(&header, &k);
+    let mut steps: Vec<(Vec<u8>, Vec<u8>, String)> = Vec::new();
+    for j in 0..3usize {
+        let ml = data.below(50);
+        let m = data.bytes(ml);
+        let ad = data.bytes(j * 2);
+        let c = so::stream_push(&mut sp, &m, Some(&ad), [0u8, 1, 2][j]);
+        if j == pos {
+            steps.push((bad_c.to_vec(), bad_ad.to_vec(), "the presented chunk".to_string()));
+        }
+        steps.push((c, ad, format!("genuine chunk #{}", j)));
+    }
+
+    let mut sl = so::stream_init_pull(&header, &k);
+    let mut state = ss::State::new();
+    ss::crypto_secretstream_xchacha20poly1305_init_pull(&mut state, &header, &k);
+    let mut pull = DryocStream::init_pull(&Key::from(k), &Header::from(header));
+    let mut history = String::new();
+    for (c, ad, name) in &steps {
+        let oracle = so::stream_pull(&mut sl, c, Some(ad));
+        let what = format!("{}{}", name, if history.is_empty() { String::new() } else { format!(" (after: {})", history) });
+
+        let mut out = vec![0u8; c.len().saturating_sub(17)];
+        let mut tag = 0u8;
+        let r = ss::crypto_secretstream_xchacha20poly1305_pull(&mut state, &mut out, &mut tag, c, Some(ad));
+        verdict(&format!("crypto_secretstream_xchacha20poly1305_pull, {}", what), oracle.is_some(), r.is_ok())?;
+        if let Some((p, t)) = &oracle {
+            eq(&format!("pull plaintext, {}", what), p, &out)?;
+            eq(&format!("pull tag, {}", what), &[*t], &[tag])?;
+        }
+        let r = pull.pull_to_vec(c, Some(ad));
+        verdict(&format!("DryocStream::pull_to_vec, {}", what), oracle.is_some(), r.is_ok())?;
+        if let (Some((p, t)), Ok((dp, dt))) = (&oracle, &r) {
+            eq(&format!("DryocStream::pull plaintext, {}", what), p, dp)?;
+            eq(&format!("DryocStream::pull tag, {}", what), &[*t], &[dt.bits()])?;
+        }
+        if !history.is_empty() {
+            history.push_str(", ");
+        }
+        history.push_str(&format!("{} {}", name, if oracle.is_some() { "accepted" } else { "rejected" }));
+    }
+    Ok(())
+}
+
 pub const C02: Registry = &[
+    ("stream_reject_then_genuine", c02_stream_sequence),
     ("secretbox_open", c02_secretbox_open),
     ("box_open", c02_box_open),
     ("seal_open", c02_seal_open),
@@ -525,6 +647,63 @@ fn oracle_must_reject(what: &str, accepted: bool) {
     if accepted {
         panic!("{} libsodium accepted a tampered {}", HARNESS, what);
     }
+}
+
+/// Multi-step: a chunk that fails authentication, then the genuine chunk.
+fn c02_sequences(ctx: &mut Ctx) -> Search {
+    let t = ctx.thorough;
+    for round in 0..(if t { 12u64 } else { 2 }) {
+        let (k, header) = (ctx.rng.arr::<32>(), ctx.rng.arr::<24>());
+        let dseed = 7000 + round;
+        // the generator needs the genuine chunks to derive forgeries from them
+        let mut data = Rng::new(dseed);
+        let mut sp = so::stream_init_pull(&header, &k);
+        let mut genuine: Vec<(Vec<u8>, Vec<u8>)> = Vec::new();
+        for j in 0..3usize {
+            let ml = data.below(50);
+            let m = data.bytes(ml);
+            let ad = data.bytes(j * 2);
+            let c = so::stream_push(&mut sp, &m, Some(&ad), [0u8, 1, 2][j]);
+            genuine.push((c, ad));
+        }
+        for pos in 0..3usize {
+            let (c, ad) = &genuine[pos];
+            let mut forged: Vec<(Vec<u8>, Vec<u8>)> = Vec::new();
+            // one bit of the tag byte, of the body, of the MAC
+            let mut idx = vec![0usize, c.len() - 16, c.len() - 1];
+            if c.len() > 17 {
+                idx.push(1);
+                idx.push(c.len() - 17);
+            }
+            for p in idx {
+                let mut v = c.clone();
+                v[p] ^= 1 << (p % 8);
+                forged.push((v, ad.clone()));
+            }
+            forged.push((c[..c.len() - 1].to_vec(), ad.clone())); // truncated
+            forged.push((c[..16].to_vec(), ad.clone())); // shorter than the overhead
+            forged.push(([&c[..], &[0u8][..]].concat(), ad.clone())); // extended
+            forged.push((c.clone(), [&ad[..], &[1u8][..]].concat())); // wrong AD
+            forged.push((genuine[(pos + 1) % 3].0.clone(), genuine[(pos + 1) % 3].1.clone())); // out of order
+            if pos > 0 {
+                forged.push(genuine[pos - 1].clone()); // replay
+            }
+            forged.push((ctx.rng.bytes(c.len()), ad.clone())); // noise
+            for (fc, fad) in forged {
+                ctx.run(
+                    "stream_reject_then_genuine",
+                    Input::new()
+                        .b("k", &k)
+                        .b("header", &header)
+                        .u("dseed", dseed)
+                        .u("pos", pos as u64)
+                        .b("c", &fc)
+                        .b("ad", &fad),
+                )?;
+            }
+        }
+    }
+    Ok(())
 }
 
 pub fn c02(ctx: &mut Ctx) -> Search {
@@ -644,7 +823,7 @@ pub fn c02(ctx: &mut Ctx) -> Search {
             }
         }
     }
-    Ok(())
+    c02_sequences(ctx)
 }
 
 // ======================================================================
